@@ -203,13 +203,18 @@ Proof.
   apply incl_app; [apply incl_appl, H|apply incl_appr, IHl].
 Qed.
 
+Lemma opaque_json_secrets n p : jsecrets (opaque_json n p) = [].
+Proof. unfold opaque_json. destruct (String.eqb n "api.DurationConfig"); [destruct (string_to_Z p)|]; reflexivity. Qed.
+
 Theorem encode_secrets T fuel : forall t v, incl (jsecrets (encode T fuel t v)) (vsecrets v).
 Proof.
   induction fuel as [|fuel IH]; intros t v; [cbn; apply incl_refl|].
   assert (Hsub : forall t0 v0 t2 v2 p, vget T t0 v0 p = Some (t2, v2) ->
                  incl (vsecrets v0) (vsecrets v) -> incl (jsecrets (encode T fuel t2 v2)) (vsecrets v)).
   { intros t0 v0 t2 v2 p Hg Hi. eapply incl_tran; [apply IH|]. eapply incl_tran; [eapply vget_secrets; eauto|exact Hi]. }
-  destruct t; destruct v; cbn [encode]; try apply incl_refl; try (cbn; apply incl_nil_l).
+  destruct t; destruct v; cbn [encode]; try apply incl_refl; try (cbn; apply incl_nil_l);
+    try (rewrite opaque_json_secrets; apply incl_nil_l);
+    try (destruct (String.eqb coder "text"); [cbn|rewrite opaque_json_secrets]; apply incl_nil_l).
   - (* TNamed, VStruct *)
     destruct (find_struct T n) as [sd|]; [|apply incl_refl].
     destruct (s_hook sd) as [|pre tgt|pf pre tgt|f|].
@@ -223,6 +228,8 @@ Proof.
     + destruct (vget T (TNamed n) (VStruct fs) [f]) as [[t2 v2]|] eqn:E; [|apply incl_refl].
       eapply Hsub; [exact E|apply incl_refl].
     + apply incl_refl.
+  - (* TNamed, VJson: custom marshaler carried as JSON *)
+    destruct (find_struct T n) as [sd|]; [destruct (s_hook sd)|]; apply incl_refl.
   - (* TPtr, VRef *)
     destruct es as [|[k x] es]; [apply incl_refl|]. destruct es; [|apply incl_refl].
     cbn. rewrite app_nil_r. apply IH.
